@@ -1,6 +1,6 @@
 (* C09 - solving for effect size / sample size. About genR/Mean.v: find_boundary, rom_solve_power_from_stats. *)
 From Coq Require Import Reals String List Lra Lia.
-From TT Require Import lib.PreludeR lib.Distr genR.Aggr genR.Mean proofs.Mean_core.
+From TT Require Import lib.RTac lib.PreludeR lib.Distr genR.Aggr genR.Mean proofs.Mean_core.
 Local Open Scope R_scope.
 
 Lemma nltb_true' a b : nltb a b = true <-> a < b.
@@ -62,14 +62,14 @@ Lemma solve_mode_effect n p :
   let fn := fun x => p - power n x in
   let other := find_boundary fn (sign_of * 10 * sqrt (v / n)) 10 in
   solver fn (Rmin 0 other) (Rmax 0 other).
-Proof. unfold rom_solve_power_from_stats, sign_of. cbv [nlit nsqrt nmin nmax]. reflexivity. Qed.
+Proof. unfold rom_solve_power_from_stats, sign_of. cbv [nlit nsqrt nmin nmax]. first [reflexivity | (cbv zeta; rq)]. Qed.
 
 Definition n_lower : R := 3 / 2 * Rmax (1 + cfg_ratio cfg) (1 + 1 / cfg_ratio cfg).
 Lemma solve_mode_n_obs e p :
   rom_solve_power_from_stats fam solver cfg v None (Some e) (Some p) =
   let fn := fun x => p - power x e in
   solver fn n_lower (find_boundary fn (n_lower * 10 / 3) 10).
-Proof. unfold rom_solve_power_from_stats, n_lower. cbv [nlit nsqrt nmin nmax]. reflexivity. Qed.
+Proof. unfold rom_solve_power_from_stats, n_lower. cbv [nlit nsqrt nmin nmax]. first [reflexivity | (cbv zeta; rq)]. Qed.
 
 (* the lower end of the n_obs bracket leaves each group more than one observation, for EVERY ratio > 0 *)
 Lemma n_lower_groups : 0 < cfg_ratio cfg ->
